@@ -1,8 +1,10 @@
+\* vacuity guard: old protocol, the stale <name>.bak is itself an input - NeverLost MUST be violated
 SPECIFICATION Spec
 CONSTANTS
   NWorkers = 2
   MaxChunks = 1
   FaultTasks = 0
+  Protocol = "old"
   SetupIds = {"bakinput"}
 INVARIANTS NeverLost
 CHECK_DEADLOCK FALSE
